@@ -11,6 +11,11 @@ claimed={
  "C04":("other","Writer.Write executed symbolically from an arbitrary valid state with real processBlock/encode (NONE/NONE): the emitted block sequence is shown to depend only on the data (not on jobs, size hint, call boundaries), inductively over call sequences. Schedule independence rests on C07.","DESIGN.md 5/C04", TECH+", inductive step over Write calls"),
  "C05":("other","Writer->tape->Reader composition executed symbolically with the real stream code: output == input for every content/size hint within the length bounds and job pairs; damaged block => error and only a correct prefix is ever delivered.","DESIGN.md 5/C05", TECH),
  "C11":("other","Block-range decoding with symbolic from/to over the real Reader/decode: output is exactly the requested slice, incl. empty ranges and all-skipped batches.","DESIGN.md 5/C11", TECH),
+ "C17":("other","Writer/Reader lifecycle against a reference state machine over all call sequences of length 3 (symbolic contents), plus bitstream Close consistency from arbitrary states.","DESIGN.md 5/C17", TECH),
+ "C08":("other","Fault position is a solver variable: shared bitstream doubles fail at a symbolic operation index, the sink of the real bitstream fails from an arbitrary state; SMT decides error reporting, no escaping panic, no success without a complete stream; stream-level counterexamples must also fail an API-level scenario on the real bitstream.","DESIGN.md 5/C08", TECH+", symbolic fault index"),
+ "C09":("other","Every strict prefix at operation granularity of a valid stream (symbolic cut index) is rejected by the real Reader; cuts inside an operation are covered by the bitstream 'read beyond end panics' obligations.","DESIGN.md 5/C09", TECH+", symbolic cut index"),
+ "C06":("other","Short reads of the source (enumerated sizes, symbolic content) on the real input bitstream, arbitrary Write partitions (inductive, C04 harness) and several Read buffer sizes.","DESIGN.md 5/C06", TECH),
+ "C02":("other","Checksum pipeline logic: a block whose stored checksum differs from the hash of the decoded data is reported and no wrong byte is ever delivered by any call; hash abstracted, replay with the real hash.","DESIGN.md 5/C02", TECH),
 }
 NA_REASON={}
 checks=[]
@@ -22,7 +27,7 @@ m={"version":1,
  "hooks":{"guard":"verif","enable":"harnesses are injected by go/packages and `go test -overlay` (build tag verif is passed but no hook file exists in /repo: nothing in /repo is instrumented)","baseline_off_cmd":"cd /repo/v2 && GOFLAGS=-mod=mod go test -json -vet=off -count=1 -timeout 25m ./...","source_commits":[],"add_only":True},
  "engines":[{"name":"gosmt","path":"/verif/engine","serves_properties":sorted(claimed),"kind_free_text":"bounded symbolic executor for Go SSA (golang.org/x/tools/go/ssa v0.29.0) emitting SMT-LIB2 for z3 4.8.12 / z3 5.1.0 / cvc5 1.0, with native replay of models via go test -overlay"}],
  "checks":checks,
- "notes":"fix: commits in /repo: fbf38b7 (C16/F1), 8fe1c5e (C15/F4), 5798e9b (C04,C01/F2), 7897bc6 (C05,C02/F3a); see known_findings.json and DESIGN.md section 6.",
+ "notes":"fix: commits in /repo: fbf38b7 (C16/F1), 8fe1c5e (C15/F4), 5798e9b (C04,C01/F2), 7897bc6 (C05,C02/F3a), a677e92 (C08/F6), c20a415 (C08,C17/F8), 5305bf6 (C08,C17/F9), 80b2972 (C06/F5); see known_findings.json and DESIGN.md section 6.",
  "not_applicable":[{"property_id":p['id'],"reason":NA_REASON.get(p['id'],"check not built yet in this round (planned with this technique, see DESIGN.md section 5)")} for p in props if p['id'] not in claimed]}
 json.dump(m,open('/verif/MANIFEST.json','w'),indent=1)
 print("claimed",sorted(claimed))
